@@ -452,6 +452,7 @@ _mk_cwr(1)
 # ---------------------------------------------------------------- listen_to_dependencies
 
 WIRED = []
+BU = "b_with_underscores"
 
 
 class CompA(object):
@@ -472,7 +473,8 @@ class Sink(object):
   def _handle_a_SomethingHappened(self, event):
     pass
 
-  def _handle_b_Other(self, event):
+  def _handle_b_with_underscores_Other(self, event):
+    """names the component 'b_with_underscores' (component names may contain underscores: openflow_discovery)"""
     pass
 
   def _handle_toofew(self, event):
@@ -498,8 +500,8 @@ def wired(b):
 def _mk_listen(pre, explicit):
   """pre: components registered before the declaration; the sink names a and b by handler names, `explicit` adds c"""
   def u(b):
-    need = ["a", "b"] + (["c"] if explicit else [])
-    objs = {"a": b.raw_new(CompA), "b": b.raw_new(CompB), "c": b.raw_new(CompB)}
+    need = ["a", BU] + (["c"] if explicit else [])
+    objs = {"a": b.raw_new(CompA), BU: b.raw_new(CompB), "c": b.raw_new(CompB), "b": b.raw_new(CompB)}
     core = new_core(b, components=b.dict(dict((nm, objs[nm]) for nm in pre)), starting_up=False)
     sink = b.raw_new(Sink, met=0)
     cs = {}
@@ -520,21 +522,21 @@ def _mk_listen(pre, explicit):
         trace.append((sink.met, len(wired(b))))
       core.register("z", objs["c"])
       trace.append((sink.met, len(wired(b))))
-      return (trace, getattr(sink, "_a_", None), getattr(sink, "_b_", None), len(core._waiters))
+      return (trace, getattr(sink, "_a_", None), getattr(sink, "_" + BU + "_", None), len(core._waiters))
     n = len(rest)
     return Case(run, [core, sink], calls=cs, raises={}, ensures={
       "wired_exactly_when_the_last_named_component_arrives_and_only_once":
         lambda res: res[0] == [(0, 0)] * n + [(1, 1)] * 2,
       "listeners_are_bound_with_the_component_name_as_prefix":
         lambda res: wired(b) == [("a", sink, "a")],
-      "component_attributes_are_set": lambda res: res[1] is objs["a"] and res[2] is objs["b"] and res[3] == 0,
+      "component_attributes_are_set": lambda res: res[1] is objs["a"] and res[2] is objs[BU] and res[3] == 0,
     })
   u.__name__ = "listen_to_dependencies_%s_registered_before%s" % ("".join(pre) or "none", "_plus_explicit_c" if explicit else "")
   u.bound = "sink with handlers naming components a and b (and optionally an explicit c); every subset registered beforehand"
   unit(P, target=CORE + "listen_to_dependencies")(u)
 
 
-for _pre in ([], ["a"], ["b"], ["a", "b"]):
+for _pre in ([], ["a"], [BU], ["a", BU], ["b"], ["a", "b"]):
   _mk_listen(_pre, False)
-for _pre in ([], ["c"], ["a", "b"], ["a", "b", "c"]):
+for _pre in ([], ["c"], ["a", BU], ["a", BU, "c"]):
   _mk_listen(_pre, True)
